@@ -25,6 +25,10 @@ CHECKS = {
    technique="runtime monitoring: \\cellx vectors of every parsed table row compared with the configured table width and the proportional division",
    text="Generated tables (1..12 columns, explicit/default relative widths, custom table widths, all header modes, page_by/subline_by removing columns at any position, table footnote/source, multi-section documents, components reused from an earlier document) are encoded by the real library; every parsed row must end at round(col_width*1440) +-1, data rows must divide that width in proportion to the displayed columns' col_rel_width, and header rows without own widths must line up cell by cell with the data columns.",
    note="trusted: reader; 1 twip tolerance; headers with own widths / spanning rows only need the right edge"),
+ "C09": dict(cat="exploration", ref="5/C09",
+   technique="runtime monitoring: character / paragraph / cell / border properties of every sentinel-tagged data cell read back and compared with an independent broadcast rule; metamorphic unpaginated twin",
+   text="Tables whose every data cell carries its original (row, col) are rendered by the real library with each body attribute drawn in scalar / per-column / matrix shape, at page sizes from one to many pages, with 0..3 columns removed by page_by/subline_by under all strategies; for every cell the font, size, style flags, text/background colour (resolved through the parsed colour table), justification, indents, spacing, hyphenation, border style/width/colour per side, vertical alignment, row height and row justification are compared with value[r mod R][c mod C] of the user's attribute; paginated documents are also compared cell by cell with their unpaginated twin.",
+   note="trusted: reader; page-boundary top/bottom edges exempt (C07); row-level properties taken at the first displayed column"),
  "C10": dict(cat="exploration", ref="5/C10",
    technique="runtime monitoring: bytes of the file written by write_rtf decoded by an independent byte-level RTF reader and compared with the input text",
    text="The real write_rtf writes documents whose body cells sweep the Unicode scalar values (thorough: all 1.1M minus controls/metacharacters, as single characters and packed 32 per cell; quick: U+0020..U+2FFF, boundary points and a stratified sample) with conversion on and off, and whose other text positions (header, title, subline, footnote/source as table and paragraph, page_by and subline_by headings, page header/footer) carry Latin-1, boundary and sampled characters; the file BYTES are decoded per RTF rules and must read back as the original text, with every \\u in the signed 16-bit range and its fallback skipped correctly.",
